@@ -316,7 +316,10 @@ def F9(m, R):
         def visit(st):
             seen.update(markers(st))
         order = {idx: ranks[0], 'start': ranks[1], 'end': ranks[2]}
-        extra = {'end != len(%s.%s)' % (f.self_name, ro.TEXT): True, 'end == len(%s.%s)' % (f.self_name, ro.TEXT): False,
+        Ltxt = 'len(%s.%s)' % (f.self_name, ro.TEXT)
+        extra = {'end != %s' % Ltxt: True, 'end == %s' % Ltxt: False, 'end < %s' % Ltxt: True,
+                 # start < len(text) always holds here: the no-op guard returned for start >= len
+                 'start != %s' % Ltxt: True, 'start == %s' % Ltxt: False, 'start < %s' % Ltxt: True, 'start >= %s' % Ltxt: False,
                  'removed_settings': True, 'not removed_settings': False}
         try:
             out = run_block(loop.body, merge_valuations(order_valuation(order), flag_valuation({}, extra)), visit)
